@@ -22,7 +22,8 @@ REQUIRED_THEOREMS = ['CfVerif.C19.' + t for t in (
     'parallel_never_raises', 'open_failure_closes_all_and_raises', 'no_double_open', 'open_twice_raises', 'no_deadlock',
     'schedule_bounded', 'never_index_error', 'mkSwarm_nodup', 'mkSwarm_of_nodup', 'gen_spawn_loop', 'gen_join_loop', 'gen_raise',
     'gen_wrapper', 'gen_reporter', 'gen_process_args', 'gen_sequential', 'gen_parallel', 'gen_open_links', 'gen_open_guard_position',
-    'gen_close_links', 'call_state', 'history_state', 'fresh_wf',
+    'gen_close_links', 'call_state', 'history_state', 'fresh_wf', 'gen_process_args_no_alias', 'args_dict_unchanged',
+    'shared_dict_history',
     'gen_ctor', 'gen_sync_crazyflie', 'gen_constants')]
 TRUSTED = ['harness/corr/c19.py extractor + correspondence (incl. the mapping of observed events to model steps)',
            'Driver/C19.lean: eager insertion of main\'s silent steps when replaying an observed step sequence',
@@ -131,6 +132,48 @@ def extract(ctx):
 
     # --- argument processing, sequential, parallel
     g.strings('procArgs', _stmts(_body(X.find(sw, '_process_args_dict'))))
+    # aliasing: which objects does _process_args_dict change in place, and are they its own fresh lists or the caller's?
+    pfn = X.find(sw, '_process_args_dict')
+    params = [a.arg for a in pfn.args.args]
+    X.expect(len(params) == 4, '_process_args_dict: expected (self, scf, uri, args_dict)')
+    caller = params[3]
+
+    def root(e):
+        while isinstance(e, (ast.Subscript, ast.Attribute)):
+            e = e.value
+        return e.id if isinstance(e, ast.Name) else None
+    aliases, fresh = {caller}, set()
+    for _ in range(3):                                   # tiny fixpoint over simple assignments
+        for n in ast.walk(pfn):
+            if isinstance(n, ast.Assign) and len(n.targets) == 1 and isinstance(n.targets[0], ast.Name):
+                v, t = n.value, n.targets[0].id
+                if isinstance(v, (ast.Name, ast.Subscript, ast.Attribute)) and root(v) in aliases:
+                    aliases.add(t)                       # bound to (a part of) the caller's dictionary without a copy
+                elif isinstance(v, ast.Call) and isinstance(v.func, ast.Attribute) and v.func.attr in ('get', 'setdefault', 'pop') \
+                        and root(v.func.value) in aliases:
+                    aliases.add(t)
+                elif isinstance(v, (ast.List, ast.ListComp, ast.BinOp, ast.Call, ast.Tuple)):
+                    fresh.add(t)
+    mutated = set()
+    MUT = ('insert', 'append', 'extend', 'pop', 'remove', 'clear', 'sort', 'reverse', 'update', 'setdefault', 'popitem', '__iadd__', '__setitem__')
+    for n in ast.walk(pfn):
+        if isinstance(n, ast.AugAssign):
+            mutated.add(ast.unparse(n.target))
+        elif isinstance(n, ast.Call) and isinstance(n.func, ast.Attribute) and n.func.attr in MUT:
+            mutated.add(ast.unparse(n.func.value))
+        elif isinstance(n, ast.Delete):
+            mutated.update(ast.unparse(t.value) if isinstance(t, ast.Subscript) else ast.unparse(t) for t in n.targets)
+        elif isinstance(n, ast.Assign):
+            mutated.update(ast.unparse(t.value) for t in n.targets if isinstance(t, ast.Subscript))
+
+    def is_caller(expr):
+        try:
+            return root(ast.parse(expr, mode='eval').body) in aliases
+        except SyntaxError:
+            return True
+    g.strings('procMutated', sorted(mutated))
+    g.strings('procFresh', sorted(fresh - aliases))
+    g.strings('procMutatedCaller', sorted(m for m in mutated if is_caller(m)))
     sq = _body(X.find(sw, 'sequential'))
     X.expect(len(sq) == 1 and isinstance(sq[0], ast.For), 'sequential: expected a single for loop')
     g.string('seqIter', ast.unparse(sq[0].iter))
@@ -220,6 +263,19 @@ class UserErr(Exception):
     def __init__(self, n):
         Exception.__init__(self, 'user error %d' % n)
         self.n = n
+
+
+def ad_of(scenario, x):
+    """the argument dictionary of an op: a literal (None / dict) or the NAME of one of the scenario's shared dictionaries
+    (scenario['shared'] = {'D0': {u: [...]}}): ops naming the same dictionary pass the very same dict object, as a caller
+    does who re-uses one args_dict for several swarm-wide actions"""
+    if isinstance(x, str):
+        return scenario.get('shared', {})[x]
+    return x
+
+
+def canon_arg(a):
+    return a if isinstance(a, (int, float, str)) and not isinstance(a, bool) else 'OBJ:' + type(a).__name__
 
 
 def uri_s(u):
@@ -321,7 +377,7 @@ def make_action(env, fails, slow=None):
 
     def act(scf, *args):
         u = uri_n(getattr(scf, '_link_uri', 'uri-1'))
-        vs.emit('call', op, u, env.ordinal(scf), tuple(args))
+        vs.emit('call', op, u, env.ordinal(scf), tuple(canon_arg(a) for a in args))
         if u in slow:
             vs.time.sleep(slow[u])          # a long-running action (virtual seconds)
         else:
@@ -363,14 +419,21 @@ def make_main(vs, Swarm, scenario, out):
         Factory = make_classes(env)
         sw = Swarm([uri_s(u) for u in scenario['uris']], factory=Factory())
         out['cfs'] = [(uri_n(k), env.ordinal(v)) for k, v in sw._cfs.items()]
+        import copy
+        shared = {name: {uri_s(u): list(a) for u, a in d.items()} for name, d in scenario.get('shared', {}).items()}
         for idx, op in enumerate(scenario['ops']):
             env.op = idx
             vs.emit('op', idx)
             exc = None
+            ad = before = None
             try:
                 kind = op[0]
                 if kind in ('ps', 'par', 'seq'):
-                    ad = None if op[1] is None else {uri_s(u): list(a) for u, a in op[1].items()}
+                    if isinstance(op[1], str):
+                        ad = shared[op[1]]                 # the SAME dict (and list) objects as in the other ops naming it
+                    else:
+                        ad = None if op[1] is None else {uri_s(u): list(a) for u, a in op[1].items()}
+                    before = copy.deepcopy(ad)
                     fn = {'ps': sw.parallel_safe, 'par': sw.parallel, 'seq': sw.sequential}[kind]
                     fn(make_action(env, op[2], op[3] if len(op) > 3 else None), ad)
                 elif kind == 'open':
@@ -384,7 +447,14 @@ def make_main(vs, Swarm, scenario, out):
             except Exception as e:      # vsched.Abort is a BaseException and passes through
                 exc = e
             vs.emit('opend', idx)
-            out['ops'].append({'res': result_label(env, idx, exc), 'open': bool(sw._is_open),
+            same = True
+            if before is not None:
+                try:
+                    same = (ad == before) and all(type(ad[k]) is type(before[k]) for k in before)
+                except Exception:
+                    same = False
+            out['ops'].append({'res': result_label(env, idx, exc), 'open': bool(sw._is_open), 'dict_same': same,
+                               'dict_now': None if same else {str(k): [canon_arg(x) for x in v] for k, v in ad.items()},
                                'mem': [bool(m.is_link_open()) for m in sw._cfs.values()]})
         return len(out['ops'])
     return main
@@ -486,9 +556,9 @@ def model_lines(scenario, res, out, points):
         sch = fmt_sched(visible_schedule(seg, res, points))
         kind = op[0]
         if kind in ('ps', 'par'):
-            lines.append('%s %s %s %s' % (kind, fmt_args(op[1]), fmt_fails(op[2]), sch))
+            lines.append('%s %s %s %s' % (kind, fmt_args(ad_of(scenario, op[1])), fmt_fails(op[2]), sch))
         elif kind == 'seq':
-            lines.append('seq %s %s' % (fmt_args(op[1]), fmt_fails(op[2])))
+            lines.append('seq %s %s' % (fmt_args(ad_of(scenario, op[1])), fmt_fails(op[2])))
         elif kind == 'open':
             lines.append('open %s %s' % (','.join(str(u) for u in op[1]) or '-', sch))
         elif kind == 'close':
@@ -535,12 +605,13 @@ def judge(scenario, res, out):
         closes = [i for _, _, i in ev if i[0] == 'close' and i[1] == idx]
         d = {'op': idx, 'kind': kind, 'result': o['res']}
         if kind in ('ps', 'par'):
-            ok_args = args_ok(scenario, op[1])
+            opd = ad_of(scenario, op[1])
+            ok_args = args_ok(scenario, opd)
             if kind == 'par' and o['res'] != 'ok':
                 bad.append(('parallel-raises', 'parallel raised', d))
             if ok_args:
-                want = sorted((u, m, tuple(op[1][u]) if op[1] else ()) for u, m in cfs)
-                if sorted(calls) != want:
+                want = sorted(((u, m, tuple(opd[u]) if opd else ()) for u, m in cfs), key=repr)
+                if sorted(calls, key=repr) != want:
                     bad.append(('each-once', 'action not run exactly once per Crazyflie with its own connection and arguments', dict(d, calls=calls, want=want)))
                 if late or sorted(fin) != sorted(u for u, _ in cfs):
                     bad.append(('returns-early', 'swarm call returned before every action had finished', dict(d, late=late[:4], finished=fin)))
@@ -551,10 +622,11 @@ def judge(scenario, res, out):
                                              o['res'][8:] not in [r[3] for r in raised]):
                         bad.append(('cause', 'parallel_safe did not chain one of the errors raised by its actions', dict(d, raised=[r[2:] for r in raised])))
         elif kind == 'seq':
-            if args_ok(scenario, op[1]):
+            opd = ad_of(scenario, op[1])
+            if args_ok(scenario, opd):
                 want, wres = [], 'ok'
                 for u, m in cfs:
-                    want.append(('call', idx, u, m, tuple(op[1][u]) if op[1] else ()))
+                    want.append(('call', idx, u, m, tuple(opd[u]) if opd else ()))
                     if u in op[2]:
                         want.append(('raised', idx, u, 'u%d' % op[2][u]))
                         wres = 'user:u%d' % op[2][u]
@@ -562,7 +634,10 @@ def judge(scenario, res, out):
                     want.append(('ret', idx, u))
                 if [i for _, _, i in mine] != want or o['res'] != wres:
                     bad.append(('sequential-order', 'sequential did not run the actions one at a time in URI order', dict(d, got=[i for _, _, i in mine][:8], want=want[:8])))
-        elif kind == 'open':
+        if kind in ('ps', 'par', 'seq') and not o.get('dict_same', True):
+            bad.append(('args-dict-mutated', "the caller's argument dictionary was changed by the swarm-wide action",
+                        dict(d, dict_before=ad_of(scenario, op[1]), dict_after=o.get('dict_now'))))
+        if kind == 'open':
             if exp_open:
                 if o['res'] != 'already' or mine or closes:
                     bad.append(('double-open', 'an open swarm accepted (or acted on) a further open_links', dict(d, events=len(mine), closes=len(closes))))
@@ -637,23 +712,31 @@ def rand_scenario(rng, ids):
         uris.insert(rng.randrange(len(uris) + 1), rng.choice(base))     # a repeated URI: dict semantics of Swarm.__init__
     members = list(dict.fromkeys(uris))
     ops = []
+    shared = {}
+    if members and rng.random() < 0.6:        # the caller re-uses one (or two) dictionaries for several actions
+        for k in range(rng.choice([1, 1, 2])):
+            shared['D%d' % k] = {u: [rng.randrange(-9, 10) for _ in range(rng.choice([0, 1, 2, 3]))] for u in members}
+    def pick_args(rng, members, missing_ok=True):
+        if shared and rng.random() < 0.7:
+            return rng.choice(sorted(shared))
+        return rand_args(rng, members, missing_ok)
     for _ in range(rng.choice([1, 2, 3, 4, 5, 6])):
         r = rng.random()
         fs = [u for u in members if rng.random() < rng.choice([0.0, 0.3, 0.6, 1.0])]
         slow = {u: rng.choice([0.5, 3.0, 60.0, 7200.0]) for u in members if rng.random() < 0.3} if rng.random() < 0.4 else {}
         if r < 0.35:
-            ops.append(('ps', rand_args(rng, members), ids.fails(fs), slow))
+            ops.append(('ps', pick_args(rng, members), ids.fails(fs), slow))
         elif r < 0.5:
-            ops.append(('par', rand_args(rng, members), ids.fails(fs), slow))
+            ops.append(('par', pick_args(rng, members), ids.fails(fs), slow))
         elif r < 0.6:
-            ops.append(('seq', rand_args(rng, members, missing_ok=False), ids.fails(fs[:1] if rng.random() < 0.7 else fs)))
+            ops.append(('seq', pick_args(rng, members, missing_ok=False), ids.fails(fs[:1] if rng.random() < 0.7 else fs)))
         elif r < 0.85:
             ops.append(('open', fs if rng.random() < 0.6 else []))
         elif r < 0.95:
             ops.append(('close',))
         elif members:
             ops.append(('preopen', rng.randrange(len(members))))
-    return {'uris': uris, 'ops': ops}
+    return {'uris': uris, 'ops': ops, 'shared': shared}
 
 
 def rand_history(rng, ids):
@@ -716,6 +799,12 @@ def plan(ctx):
     # the failing member is joined first while later members still run for a long (virtual) time
     for us, fs, slow in (([5, 6], [5], {6: 3600.0}), ([5, 6, 7], [6], {5: 1.0, 7: 90000.0}), ([5, 6, 7, 8], [5, 8], {6: 0.25, 7: 10.0})):
         pl.append(({'uris': us, 'ops': [('ps', None, ids.fails(fs), slow), ('par', None, ids.fails(fs), slow)]}, ('random', 6 if t else 3)))
+    # one argument dictionary re-used for several actions (any mix of sequential / parallel / parallel_safe, with failures in between):
+    # every action must get (connection, *own entry) and the caller's dictionary and lists must be left as they were
+    sh = {'D0': {5: [1, -2], 6: []}, 'D1': {5: [], 6: [7, 7, 7]}}
+    pl.append(({'uris': [5, 6], 'shared': sh, 'ops': [('ps', 'D0', {}), ('ps', 'D0', ids.fails([6])), ('seq', 'D0', {}), ('par', 'D0', ids.fails([5])),
+                                                       ('seq', 'D1', ids.fails([6])), ('seq', 'D1', {}), ('ps', 'D1', {}), ('ps', 'D0', {})]},
+               ('dfs', 1, 300 if t else 40)))
     # histories of open / close calls on one swarm: state checked after every call
     pl.append(({'uris': [5, 6], 'ops': [('open', []), ('open', []), ('open', [6]), ('close',), ('open', [5]), ('open', []), ('open', []), ('close',), ('open', [])]},
                ('dfs', 1, 400 if t else 60)))
@@ -735,7 +824,8 @@ def corpus():
     res = []
     for f in sorted(glob.glob(os.path.join(os.path.dirname(os.path.dirname(os.path.abspath(__file__))), 'corpus', 'c19', '*.json'))):
         w = json.load(open(f))
-        res.append(({'uris': w['uris'], 'ops': [tuple(_unjson(op)) for op in w['ops']]}, ('replay', w.get('choices', []))))
+        res.append(({'uris': w['uris'], 'ops': [tuple(_unjson(op)) for op in w['ops']],
+                     'shared': {k: {int(u): a for u, a in v.items()} for k, v in w.get('shared', {}).items()}}, ('replay', w.get('choices', []))))
     return res
 
 
@@ -783,7 +873,7 @@ def observe_all(ctx):
 
 def _desc(o):
     sc = o['scenario']
-    return {'uris': sc['uris'], 'ops': [list(op) for op in sc['ops']], 'choices': o['choices']}
+    return {'uris': sc['uris'], 'shared': sc.get('shared', {}), 'ops': [list(op) for op in sc['ops']], 'choices': o['choices']}
 
 
 def correspond(ctx):
@@ -833,7 +923,7 @@ def replay(ctx, rp):
         print('replay: this file names broken obligations, not an input; run ./check C19 to re-check them:',
               [b.get('name') for b in rp.get('broken', [])])
         return False
-    sc = {'uris': w['uris'], 'ops': [tuple(_unjson(op)) for op in w['ops']]}
+    sc = {'uris': w['uris'], 'ops': [tuple(_unjson(op)) for op in w['ops']], 'shared': {k: {int(u): a for u, a in v.items()} for k, v in w.get('shared', {}).items()}}
     with vsched.Session(step_limit=4000, trace_points=report_points()) as s, contextlib.redirect_stdout(io.StringIO()):
         from cflib.crazyflie.swarm import Swarm
         out = {}
